@@ -89,6 +89,16 @@ CHECKS = {
    note="Trusted: simrt + instrumenter; 70-line reference model of the dependency database; probe controllers are harness code. Four genuine defects found here were repaired in /repo. Sampling only.",
    technique=TECH+"step-by-step comparison with a reference model of the dependency database, notification-exactness oracle at quiescence",
    ref="DESIGN.md §7 C17"),
+ "C08": dict(level="exploration",
+   text="Seeded search over attacker controllers of both flavours with random input/output declarations (3 types x {by kind, 2 ids} x all six input kinds, exclusive/shared outputs), run by the real runtime with a random subset of kinds served from the cache, each firing up to 30 random runtime-API calls (Get/List/ContextWithTeardown and the uncached variants, Create/Update/Modify/Teardown/Destroy with and without explicit-owner and no-owner options, Add/RemoveFinalizer) at resources owned by nobody, by itself, by the other attacker and by a third party (some tearing down, some with finalizers). Every call is judged by an access model written from the property statement: calls outside the declarations must fail and leave no commit attributed to the calling task in the commit tap, calls inside them must not be refused by the access check, a resource owned by someone else never changes unless its owner is named explicitly, created resources carry the controller name unless ownership was opted out, and a rejected call never commits.",
+   note="Trusted: simrt + instrumenter; 40-line access model (mayRead/mayFinalize/isOutputOf); attacker bodies are harness code. Largely program-quantified: the schedule dimension matters through the cache and two attackers sharing the store; kept because the multi-party, commit-attribution part is decided by the simulated workload. Sampling only; coverage cells op x declared x owner x flavour x cached are counted in the evidence.",
+   technique=TECH+"attacker workload against an access reference model with per-call commit attribution from the tap",
+   ref="DESIGN.md §7 C08"),
+ "C20": dict(level="exploration",
+   text="Seeded search over sequences of up to 14 operations Initialize / AddKeySlot / DeleteKeySlot / GetMasterKey / MarshalBinary snapshots / UnmarshalBinary of any earlier snapshot into the same or a fresh storage, over 4 slot ids and 5 x25519 key pairs with right, wrong and dead credentials, compared operation by operation with a live-slot model and audited after every operation (every live slot with its key recovers the original master key; dead slots and wrong keys recover nothing; last slot undeletable; existing slot not overwritten; second initialisation refused). Fault kind: up to 4 single-field corruptions of the serialized form per run (encrypted blob flipped / truncated / extended / swapped / re-encrypted to another key / emptied; slot added as copy / attacker-encrypted / random / empty, or removed; integrity tag flipped / truncated / extended / emptied), each followed by 1-3 retrievals (get / add-slot / delete-slot through live slots with their right keys) that must all fail, after which no live slot may answer and a planted slot must not answer its planter.",
+   note="Degenerate simulation: one task, no clock, no schedule dimension (one mutex around pure code); the fault dimension is stored-form corruption between marshal and unmarshal. Real x25519/AES-GCM via gopenpgp; the master key and all choices derive from the seed, ciphertext randomness (crypto/rand) does not influence outcomes. Corruption of slot ids (rename), algorithm and storage-version fields are outside the statement and not judged. Two genuine defects found here were repaired in /repo. Sampling only.",
+   technique="model-based operation/fault sequencing under the simulator harness (seeded generation, minimisation, replay): live-slot reference model + stored-form corruption injection",
+   ref="DESIGN.md §7 C20"),
  "C19": dict(level="exploration",
    text="Seeded search over client operation sequences at three handles (direct state, runtime cache incl. filtered cached lists, simulated gRPC leg) in which clients keep every object they passed to Create/Update/Modify or got from Get/List/UpdateWithConflicts/Modify plus Metadata.Copy() copies, interleaved with later 'scribbles' of held objects through the public API (labels Set/Delete/Do, annotations, finalizers Add/Remove/Set, phase, version, owner, spec value and token slices in place) on resources carrying three unsorted finalizers, labels and annotations; after EVERY operation the store must equal the replay of the commit log, every other held object must still equal what it was when obtained (order-sensitive), a watcher's kept event objects must be unchanged, and cached/remote views at quiescence must equal the committed state.",
    note="Trusted: simrt + instrumenter; commit tap snapshots are value copies taken at commit time. Largely program/input-quantified: the schedule dimension matters only through several client tasks sharing storage lineage; kept because the stored-state-aliasing dimension is decided by the simulated multi-client workload with a reference replay.",
